@@ -1351,3 +1351,8 @@ M("c06_rev_extend_from_within_len_after_loop", ["C06"], ["C06.R6"], [
 
             self.len += count;
         }""")])
+
+M("c10_reset_to_without_realign_revert", ["C10", "C01"], ["C10.R1", "C01.R8"], [
+    ("src/raw_bump.rs", """            let addr = align_pos(S::UP, S::MIN_ALIGN, checkpoint.address.get());
+            chunk.set_pos_addr(addr);""", """            let _ = chunk;""")])
+
